@@ -330,6 +330,7 @@ type WSClient struct {
 	log      []WSRecv
 	readErr  error
 	readDone bool
+	readEndT time.Duration
 	onRecv   func(WSRecv)
 	paused   chan struct{} // non-nil while reading is paused
 
@@ -379,6 +380,7 @@ func (c *WSClient) readLoop() {
 			c.mu.Lock()
 			c.readErr = err
 			c.readDone = true
+			c.readEndT = t
 			c.cond.Broadcast()
 			c.mu.Unlock()
 			return
@@ -453,6 +455,21 @@ func (c *WSClient) Log() []WSRecv {
 	return out
 }
 
+// LogFrom returns a snapshot of the frames with index >= i.
+func (c *WSClient) LogFrom(i int) []WSRecv {
+	c.mu.Lock()
+	defer c.mu.Unlock()
+	if i < 0 {
+		i = 0
+	}
+	if i >= len(c.log) {
+		return nil
+	}
+	out := make([]WSRecv, len(c.log)-i)
+	copy(out, c.log[i:])
+	return out
+}
+
 // Len is the number of frames received so far.
 func (c *WSClient) Len() int { c.mu.Lock(); defer c.mu.Unlock(); return len(c.log) }
 
@@ -461,6 +478,13 @@ func (c *WSClient) ReadEnded() (bool, error) {
 	c.mu.Lock()
 	defer c.mu.Unlock()
 	return c.readDone, c.readErr
+}
+
+// ReadEndAt is the MonoNow() at which the reader saw the end of the connection (0 = still reading).
+func (c *WSClient) ReadEndAt() time.Duration {
+	c.mu.Lock()
+	defer c.mu.Unlock()
+	return c.readEndT
 }
 
 // WaitFor blocks until pred holds for some received frame (scanning from the
